@@ -24,6 +24,15 @@ func TestC01(t *testing.T) {
 		if rapid.IntRange(0, 5).Draw(t, "limit_at_boundary") == 0 {
 			limitAtFieldBoundary(t, sc)
 		}
+		if rapid.IntRange(0, 29).Draw(t, "empty_stream_to_rest") == 0 {
+			// a client stream without a single message toward a backend whose request is built from
+			// the first message (the only client-streaming method with a REST binding is Upload)
+			sc.Config.Protocols = []string{ProtoREST}
+			o := genOpts{forms: []string{FormConnectStream, FormGRPC, FormGRPCWeb}, methods: []string{"Upload"}, noText: true}
+			sc.Client = genClient(t, &sc.Config, o)
+			sc.Client.Msgs, sc.Client.MsgRaw, sc.Client.Fault = nil, nil, nil
+			sc.Backend = genBackend(t, &sc.Client, o)
+		}
 		judge(t, "C01", sc, checkC01(sc))
 	})
 }
